@@ -15,7 +15,7 @@ Cover ==
   IF nd.phase = "idle" /\ sched # <<>> /\ Key \notin TLCGet(1)
   THEN /\ TLCSet(1, TLCGet(1) \cup {Key})
        /\ JsonSerialize("out/s_" \o ToString(Cardinality(TLCGet(1))) \o ".json",
-                        [name |-> cf.name \o ":tlc-" \o ToString(Cardinality(TLCGet(1))), chain |-> cf.chain, stored_version |-> VerStr(cf.ver), min_swap_msat |-> cf.minmsat, accept_all |-> cf.acceptall, steps |-> sched, expect |-> SetToSeq(viol),
+                        [name |-> cf.name \o ":tlc-" \o ToString(Cardinality(TLCGet(1))), chain |-> cf.chain, stored_version |-> VerStr(cf.ver), min_swap_msat |-> cf.minmsat, accept_all |-> cf.acceptall, dup_pay |-> cf.duppay, swap_vout |-> cf.vout, peer_rate |-> cf.peerrate, btc_enabled |-> Cfg.btc_enabled, lbtc_enabled |-> Cfg.lbtc_enabled, wallet_sat |-> Cfg.wallet_sat, spendable_msat |-> Cfg.spendable_msat, receivable_msat |-> Cfg.receivable_msat, steps |-> sched, expect |-> SetToSeq(viol),
                          expect_disk |-> SetToSeq({<<s, nd.disk[s].role, nd.disk[s].cur>> : s \in DOMAIN nd.disk}), expect_active |-> SetToSeq({<<s, nd.mem[s].cur>> : s \in nd.reg})])
   ELSE TRUE
 ===============================================================================
